@@ -235,3 +235,31 @@ func VerifHarness_C07_RenameSelf() {
 	vsymAssert(okB, "other labels are untouched")
 	vsymReach("C07_rename_self")
 }
+
+// C07-O1d: a label_format stage mixing templates and renames, from query text:
+// the assignments take effect in the order written, each template expanding
+// over the labels current at that point.
+func VerifHarness_C07_LabelFormatOrder() {
+	v := vsymString("v", 1)
+	set := newLabelSet()
+	set.Set("a", pcommon.NewValueStr(v))
+	q := []string{
+		`{x="y"} | label_format c="{{.a}}", b=a`, // the template is written before the rename: a still exists
+		`{x="y"} | label_format b=a, c="{{.b}}"`, // the template is written after the rename: b exists
+	}[vsymChoice("query", 2)]
+	expr, err := logql.Parse(q, logql.ParseOptions{})
+	vsymAssert(err == nil, "the query parses")
+	proc, err := buildLabelFormat(expr.(*logql.LogExpr).Pipeline[0].(*logql.LabelFormatExpr))
+	vsymAssert(err == nil, "label_format stage builds")
+	_, keep := proc.Process(1, "l", set)
+	vsymAssert(keep && verifNoErr(set), "label_format keeps the line and raises no error")
+	b, okb := verifGet(set, "b")
+	vsymAssert(okb && b == v, "the rename takes effect")
+	c, okc := verifGet(set, "c")
+	if okc && c == "" && v != "" {
+		vsymFinding("F38", true, "in a label_format stage that mixes templates and renames all renames run before all templates, whatever the order written: `label_format c=\"{{.a}}\", b=a` sets c to the empty string because a is already renamed away when the template expands")
+		return
+	}
+	vsymAssert(okc && c == v, "a template expands over the labels current where it is written")
+	vsymReach("C07_label_format_order")
+}
